@@ -358,9 +358,9 @@ class C10(Base):
                  "histories, judged by a reference protocol model")
     BATCH = 8
     SIZES = {"quick": (40, 24), "thorough": (64, 48)}
-    BOX = {"quick": (4, 2), "thorough": (7, 3)}
+    BOX = {"quick": (6, 2), "thorough": (8, 3)}
     RULE = ("layer 1: for every configuration of the box (all 13 class "
-            "variants, N <= 4 quick / 7 thorough) the fault-free history of H"
+            "variants, N <= 6 quick / 8 thorough) the fault-free history of H"
             " next() calls is taken and one finalize(k) is injected at every "
             "instant 0..H (incl. before the first next() and after "
             "exhaustion) for every k in {-1,0,1,told-1,told,told+1,N-1,N,N+1,"
